@@ -73,6 +73,34 @@ def check_queue_order(ctx):
     return f, s_p, qmap, None
 
 
+def check_new_work_queued(ctx, f, s_p):
+    """Jobs built for arriving / failed work are collected in a list and every element of that list is put on the queue of its priority
+    in the same round (a job that is built but not queued is never offered: its operators wait for ever)."""
+    g = cfg_of(f, subst_env=False)
+    colls: Dict[str, List[ast.Call]] = {}
+    for c in calls_named(f, "WaitingQueueJob"):
+        p_ = parent(c)
+        if isinstance(p_, ast.Call) and isinstance(p_.func, ast.Attribute) and p_.func.attr == "append" and isinstance(p_.func.value, ast.Name) and p_.args and p_.args[0] is c:
+            colls.setdefault(p_.func.value.id, []).append(p_)
+    ctx.ob(1, "K3", "jobs for arriving / failed work are collected before they are queued", bool(colls), f, f.node, construct="jobs.append(WaitingQueueJob(...))",
+           detail=f"collector lists: {sorted(colls)}")
+    for J, fills in colls.items():
+        ok, d = False, f"no loop over `{J}` that queues every element"
+        for n in own_nodes(f.node):
+            if not (isinstance(n, ast.For) and norm.is_name(n.iter, J) and isinstance(n.target, ast.Name)):
+                continue
+            jv = n.target.id
+            hid = g.node_of(n).id
+            for a in ast.walk(n):
+                if isinstance(a, ast.Call) and isinstance(a.func, ast.Attribute) and a.func.attr == "append" and len(a.args) == 1 and norm.is_name(a.args[0], jv) \
+                        and norm.U(a.func.value) in (f"{s_p}.queues_by_prio[{jv}.pipeline.priority]", f"{s_p}.queues_by_prio[{jv}.priority]"):
+                    every = g.path_avoiding(hid, {hid, g.exit.id}, {g.node_of(a).id}, edge_ok=lambda x, y, lab, hid=hid: not (x == hid and lab == "done")) is None
+                    after = all(g.path_avoiding(g.node_of(fl).id, {g.exit.id}, {hid}) is None for fl in fills)
+                    ok = every and after
+                    d = f"`{stmt_text(n)}`: every job appended to {norm.U(a.func.value)}: {every}; the loop follows every fill of `{J}` on all paths: {after}"
+        ctx.ob(1, "K3", "every job built for arriving / failed work is put on the queue of its own priority in the same round", ok, f, fills[0], construct=f"for job in {J}: queue.append(job)", detail=d)
+
+
 def check_pool_choice(ctx, f, s_p):
     P = ctx.P
     h = P.fn(PRIO, "get_pool_with_max_avail_ram")
@@ -449,6 +477,7 @@ def check_priority_pool_order(ctx):
 def run(ctx):
     f, s_p, qmap, ql = check_queue_order(ctx)
     check_priority_pool_order(ctx)
+    check_new_work_queued(ctx, f, s_p)
     check_job_loop(ctx, f, s_p, ql)
     check_pool_choice(ctx, f, s_p)
     check_suspension(ctx, f, s_p, qmap)
